@@ -140,9 +140,10 @@ def r3(ctx: Ctx) -> None:
     ctx.site(f.where, "numbers are added to the constant; expressions add their constant and every term")
     num = [st for st in atoms_of(c, lambda x: x[0] == "aug" and x[1] == "Add" and x[2] == ("a", res, "c") and x[3] == ("c", ("g", "int"), (t,), ()))]
     exprc = [st for st in atoms_of(c, lambda x: x[0] == "aug" and x[1] == "Add" and x[2] == ("a", res, "c") and x[3] == ("a", t, "c"))]
-    loops = [lp for lp in atoms_of(c, lambda x: x[0] == "for" and len(x) == 5 and x[2] == ("a", t, "t"))]
+    from .common import dict_loops
+    loops = dict_loops(c, ("a", t, "t"))
     ok = len(num) == 1 and len(exprc) >= 1 and len(loops) == 1 and \
-        loops[0][3] == (("set", res, (to_poly(res) + to_poly(("s", ("a", t, "t"), loops[0][1]))).to_s()),)
+        loops[0][0][3] == (("set", res, (to_poly(res) + to_poly(loops[0][2])).to_s()),)
     if not ok:
         ctx.report(f.where, "add-number-or-expr", "adding a number / an expression is not 'constant += int(n)' / 'constant += e.c and every term of e'", lineno=f.node.lineno)
 
@@ -229,12 +230,14 @@ def r6(ctx: Ctx) -> None:
     outs = {o for l, o in ps}
     if want_term not in outs or want_num not in outs:
         ctx.report(f.where, "sub-negation", "Expr.__sub__ does not add Term(L, -c) for a term and -int(n) for a number", lineno=f.node.lineno)
-    loops = [lp for lp in atoms_of(c, lambda x: x[0] == "for" and len(x) == 5 and x[2] == ("a", t, "t"))]
+    from .common import dict_loops
+    dl = dict_loops(c, ("a", t, "t"))
+    loops = [x[0] for x in dl]
     ctx.site(f.where, "Expr.__sub__ of an expression subtracts its constant and every term")
     ok = False
     if len(loops) == 1:
         acc = loops[0][3][0][1] if loops[0][3] and loops[0][3][0][0] == "set" else None
-        if acc is not None and loops[0][3] == (("set", acc, (to_poly(acc) - to_poly(("s", ("a", t, "t"), loops[0][1]))).to_s()),):
+        if acc is not None and loops[0][3] == (("set", acc, (to_poly(acc) - to_poly(dl[0][2])).to_s()),):
             init = [st for st in atoms_of(c, lambda x: x[0] == "set" and len(x) == 3 and x[1] == acc and not contains(x[2], acc))]
             ok = len(init) == 1 and init[0][2] == (to_poly(s_) - to_poly(("a", t, "c"))).to_s()
     if not ok:
